@@ -3619,7 +3619,8 @@ void AddDefSymbol(char* Name, TempResult* Value) {
     Neu            = (PDefSymbol)malloc(sizeof(TDefSymbol));
     Neu->Next      = FirstDefSymbol;
     Neu->SymName   = as_strdup(Name);
-    Neu->Wert      = (*Value);
+    as_tempres_ini(&Neu->Wert);
+    as_tempres_copy(&Neu->Wert, Value);
     FirstDefSymbol = Neu;
 }
 
@@ -3645,6 +3646,7 @@ void RemoveDefSymbol(char* Name) {
         Lauf->Next = Lauf->Next->Next;
     }
     free(Save->SymName);
+    as_tempres_free(&Save->Wert);
     free(Save);
 }
 
